@@ -3,9 +3,9 @@
    Drives the real collect() of /repo/src/encode.c exactly as compress.c does:
    encoder_alloc_size / encoder_init, then one collect() call per buffer with
    (pointer, remaining size), stopping at the first call that returns "full";
-   then the "Finalize initial RLE" step of encode() (the four lines at the top
-   of encode(), replicated here -- encode() itself is not called, it would go
-   on to sort the block).
+   then the "Finalize initial RLE" step of encode() (the statements at the top
+   of encode(), textually included from the source -- encode() itself is not
+   called, it would go on to sort the block).
 
    Every buffer is its own exact-size malloc, so that a look-ahead past the end
    of a buffer (the fourth-byte peek of STATE 3 / finish_run) is an ASan error.
@@ -39,6 +39,26 @@ hexval(int c)
   if (c >= '0' && c <= '9') return c - '0';
   if (c >= 'a' && c <= 'f') return c - 'a' + 10;
   return -1;
+}
+
+/* "Finalize initial RLE" of encode().  checks/C04.py cuts these statements out
+   of the encode.c being checked (from the comment `Finalize initial RLE.` to
+   the `assert(s->nblock > 0);` that follows) into finalize_rle.inc, so that the
+   harness runs the source text itself; without that file (manual builds) the
+   copy below, taken from the pinned tree, is used. */
+static void
+finalize_rle(struct encoder_state *s)
+{
+  uint8_t *block = (void *)(s->SA + s->max_block_size + GROUP_SIZE);
+#ifdef HAVE_FINALIZE_INC
+#include "finalize_rle.inc"
+#else
+  if (s->rle_state >= 4) {
+    assert(s->nblock < s->max_block_size);
+    block[s->nblock++] = s->rle_state - 4;
+    s->cmap[s->rle_state - 4] = true;
+  }
+#endif
 }
 
 /* One exact-size encoder allocation per capacity, kept across requests: the
@@ -140,32 +160,43 @@ do_collect_cmd(char *a_cap, char *a_hex, char *a_sizes)
   nblock_before = e->nblock;
   block = (void *)(e->SA + e->max_block_size + GROUP_SIZE);
 
-  /* Finalize initial RLE (encode(), lines 443-447). */
-  if (e->rle_state >= 4) {
-    assert(e->nblock < e->max_block_size);
-    block[e->nblock++] = e->rle_state - 4;
-    e->cmap[e->rle_state - 4] = true;
-  }
+  finalize_rle(e);
 
-  printf("%d %zu ", full, consumed);
-  if (e->nblock == 0)
-    putchar('-');
-  for (i = 0; i < e->nblock; i++)
-    printf("%02x", block[i]);
-  printf(" %u %d %08x ", (unsigned)nblock_before, e->rle_state,
-         (unsigned)(e->block_crc ^ 0xffffffffu));
-  if (e->rle_state > 0)
-    printf("%02x ", e->rle_character & 0xffu);
-  else
-    printf("- ");
-  /* cmap: 256 bits, byte value b is bit (b & 7) of octet b >> 3 */
-  for (i = 0; i < 32; i++) {
-    unsigned v = 0, j;
-    for (j = 0; j < 8; j++)
-      v |= (unsigned)(e->cmap[8 * i + j] ? 1 : 0) << j;
-    printf("%02x", v);
+  /* reply, formatted by hand (printf per byte dominated the run time) */
+  {
+    static const char hexd[] = "0123456789abcdef";
+    static char *out = 0;
+    static size_t out_cap = 0;
+    size_t need = 2 * (size_t)e->nblock + 200, o = 0;
+    if (need > out_cap) {
+      free(out);
+      out = malloc(need);
+      out_cap = need;
+    }
+    o += sprintf(out + o, "%d %zu ", full, consumed);
+    if (e->nblock == 0)
+      out[o++] = '-';
+    for (i = 0; i < e->nblock; i++) {
+      out[o++] = hexd[block[i] >> 4];
+      out[o++] = hexd[block[i] & 15];
+    }
+    o += sprintf(out + o, " %u %d %08x ", (unsigned)nblock_before, e->rle_state,
+                 (unsigned)(e->block_crc ^ 0xffffffffu));
+    if (e->rle_state > 0)
+      o += sprintf(out + o, "%02x ", e->rle_character & 0xffu);
+    else
+      o += sprintf(out + o, "- ");
+    /* cmap: 256 bits, byte value b is bit (b & 7) of octet b >> 3 */
+    for (i = 0; i < 32; i++) {
+      unsigned v = 0, j;
+      for (j = 0; j < 8; j++)
+        v |= (unsigned)(e->cmap[8 * i + j] ? 1 : 0) << j;
+      out[o++] = hexd[v >> 4];
+      out[o++] = hexd[v & 15];
+    }
+    out[o++] = '\n';
+    fwrite(out, 1, o, stdout);
   }
-  putchar('\n');
 
   put_encoder(e, cap);
   free(input);
